@@ -256,8 +256,35 @@ def good_branch(e, stage):
     calls = [x for x in walk(e['n']) if x.get('k') == 'Call' and x.get('fn') == 'good' and recv_root(x) == stage]
     if not calls:
         return None
-    neg = len([x for x in walk(e['n']) if x.get('k') == 'Un' and x.get('op') == '!']) % 2 == 1
-    return e['taken'] != neg
+    pol = _polarity(e['n'], calls[0])
+    if pol is None:
+        return None
+    return e['taken'] == pol
+
+
+def _polarity(cond, target):
+    """True if `cond` is true exactly when the boolean call `target` is true, False if exactly when it is false, None if unknown.
+    Understands !x, x == true/false, x != true/false, and implicit conversions."""
+    c = strip(cond)
+    while isinstance(c, dict) and c.get('k') == 'Cast':
+        c = strip(c['sub'])
+    if c is target:
+        return True
+    if not isinstance(c, dict):
+        return None
+    if c.get('k') == 'Un' and c.get('op') == '!':
+        p = _polarity(c['sub'], target)
+        return None if p is None else (not p)
+    if c.get('k') == 'Bin' and c.get('op') in ('==', '!='):
+        for a, b in ((c['lhs'], c['rhs']), (c['rhs'], c['lhs'])):
+            bb = strip_all_casts(b)
+            if isinstance(bb, dict) and bb.get('lit') == 'bool':
+                p = _polarity(a, target)
+                if p is None:
+                    return None
+                same = bool(bb.get('v')) == (c['op'] == '==')
+                return p if same else (not p)
+    return None
 
 
 def E1(F, rep, FL):
@@ -1066,6 +1093,11 @@ def T1(F, rep, FL):
         lo = 0
         for e in i['guards']:
             c = strip(e['n'])
+            flip = False
+            while isinstance(c, dict) and (c.get('k') == 'Cast' or (c.get('k') == 'Un' and c.get('op') == '!')):
+                if c.get('k') == 'Un':
+                    flip = not flip
+                c = strip(c['sub'])
             if not (isinstance(c, dict) and c.get('k') == 'Bin' and c.get('op') in ('<', '<=', '>', '>=')):
                 continue
             l, r = strip_all_casts(c['lhs']), strip_all_casts(c['rhs'])
@@ -1085,7 +1117,7 @@ def T1(F, rep, FL):
                 op = {'<': '>', '<=': '>=', '>': '<', '>=': '<='}[op]
             if is_os(l) and val(r) is not None:
                 v = val(r)
-                t = e['taken']
+                t = e['taken'] != flip
                 # objectSize OP v is `taken`
                 if (op == '<' and not t):
                     lo = max(lo, v)
